@@ -153,3 +153,63 @@ def whole_axis_range(func_node, loop: ast.For) -> Tuple[bool, str]:
 
     ex = extent(stop)
     return (ex is not None), (ex or ast.unparse(it))
+
+
+def mentions_through_defs(func_node, expr: ast.AST, pred, depth: int = 4, _seen=None) -> bool:
+    """Does `expr`, or the defining expression of any local name it reads (followed through single or multiple
+    assignments, up to `depth` levels), contain a node satisfying `pred`?  Local names are not anchors: rules ask
+    what a name *is*, not what it is called."""
+    _seen = _seen if _seen is not None else set()
+    for n in ast.walk(expr):
+        if pred(n):
+            return True
+    if depth <= 0:
+        return False
+    la = local_assignments(func_node)
+    for n in ast.walk(expr):
+        if isinstance(n, ast.Name) and isinstance(n.ctx, ast.Load) and n.id in la and n.id not in _seen:
+            _seen.add(n.id)
+            for d in la[n.id]:
+                if d[0] in ("assign", "unpack") and mentions_through_defs(func_node, d[1], pred, depth - 1, _seen):
+                    return True
+    return False
+
+
+def substitute_defs(func_node, expr: ast.expr, stop: Set[str], depth: int = 6) -> ast.expr:
+    """Copy of `expr` in which every local name with exactly one plain assignment in the function (and not in `stop`) is
+    replaced by its defining expression, recursively."""
+    import copy
+    la = local_assignments(func_node)
+
+    class Sub(ast.NodeTransformer):
+        def __init__(self, d):
+            self.d = d
+
+        def visit_Name(self, n):
+            if isinstance(n.ctx, ast.Load) and n.id not in stop and self.d > 0:
+                defs = la.get(n.id, [])
+                if len(defs) == 1 and defs[0][0] == "assign":
+                    return Sub(self.d - 1).visit(copy.deepcopy(defs[0][1]))
+            return n
+    return ast.fix_missing_locations(Sub(depth).visit(copy.deepcopy(expr)))
+
+
+def returned_name(func_node) -> Optional[str]:
+    """the local name returned by the last `return <name>` of the function (None if it returns something else)"""
+    rets = [n for n in own_walk(func_node) if isinstance(n, ast.Return) and n.value is not None]
+    if rets and isinstance(rets[-1].value, ast.Name):
+        return rets[-1].value.id
+    return None
+
+
+def name_bound_to_call(func_node, callee_suffix: str) -> Optional[str]:
+    """the local name bound (by assignment or walrus) to the result of a call whose dotted name ends with callee_suffix"""
+    for n in own_walk(func_node):
+        tgt, val = None, None
+        if isinstance(n, ast.NamedExpr):
+            tgt, val = n.target, n.value
+        elif isinstance(n, ast.Assign) and len(n.targets) == 1:
+            tgt, val = n.targets[0], n.value
+        if isinstance(tgt, ast.Name) and isinstance(val, ast.Call) and call_name(val).endswith(callee_suffix):
+            return tgt.id
+    return None
